@@ -3,6 +3,7 @@ package c02
 
 import (
 	"fmt"
+	"sort"
 	"testing"
 
 	"github.com/openacid/low/bitmap"
@@ -115,13 +116,127 @@ func TestFirst(t *testing.T) {
 				}
 			}
 		}
+		// every word count from 0 to 320 (no length between the small bitmaps and the large ones is left out),
+		// ascending, two contents each: a density that changes with the count, and one bit in every third word
+		// with the very last bit set (so the last checkpoint / the last one lies in the last word at every count)
+		for nw := 0; nw <= 320; nw++ {
+			spec := gen.BigSpec{N: nw, Key: vk.Mix(uint64(nw)*977 + vk.Seed()), Style: []int{0, 1, 3, 5, 2}[nw%5]}
+			checker.Run(t, Case{Big: &spec, Style: "sweep-wordcount", Queries: queriesFrom(spec.Key, 64)})
+			w := make(vk.Words, nw)
+			for i := 0; i < nw; i += 3 {
+				w[i] = 1 << (vk.Mix(uint64(nw)<<20+uint64(i)) & 63)
+			}
+			if nw > 0 {
+				w[nw-1] |= 1<<63 | 1
+			}
+			checker.Run(t, Case{Words: w, Style: "sweep-wordcount-thin"})
+		}
 	}
+}
+
+// ladderCase: a deterministic bitmap of exactly nw words that is non-trivial AT that size (ones in the first and
+// in the last word, checkpoints spread over the whole length).
+//
+//	kind 0: eight single bits spread evenly, the very last bit set (fewer than 32 ones in every stretch)
+//	kind 1: groups of exactly 32 ones every nw/9 words (the count in front of a stretch is a multiple of 32), last word 1
+//	kind 2: every word drawn (densities by key)
+func ladderCase(nw int, key uint64, kind int) Case {
+	q := queriesFrom(key, 96)
+	switch kind {
+	case 0:
+		sp := &Spec{N: nw}
+		for j := 0; j < 7; j++ {
+			at := j * nw / 7
+			if len(sp.At) == 0 || sp.At[len(sp.At)-1] < at {
+				sp.At = append(sp.At, at)
+				sp.W = append(sp.W, 1<<(vk.Mix(key+uint64(j))&63))
+			}
+		}
+		if nw > 0 {
+			if sp.At[len(sp.At)-1] == nw-1 {
+				sp.W[len(sp.W)-1] |= 1 << 63
+			} else {
+				sp.At, sp.W = append(sp.At, nw-1), append(sp.W, 1<<63)
+			}
+		}
+		return Case{Sp: sp, Style: "ladder-few-ones", Queries: q}
+	case 1:
+		sp := &Spec{N: nw}
+		g := max(nw/9, 1)
+		pats := []uint64{0xffffffff, 0xffffffff00000000, 0xffff0000ffff0000, 0x5555555555555555, 0xff00ff00ff00ff00}
+		for at, j := g/2, 0; at < nw-1; at, j = at+g, j+1 {
+			sp.At = append(sp.At, at)
+			sp.W = append(sp.W, pats[vk.Mix(key+uint64(j))%uint64(len(pats))])
+		}
+		if nw > 0 {
+			sp.At, sp.W = append(sp.At, nw-1), append(sp.W, 1)
+		}
+		return Case{Sp: sp, Style: "ladder-groups-of-32", Queries: q}
+	default:
+		spec := gen.BigSpec{N: nw, Key: key, Style: int(key % 6)}
+		return Case{Big: &spec, Style: "ladder-drawn", Queries: q}
+	}
+}
+
+// hugeSparse: a bitmap of nw >= 2^18 words with ones in the first words, around word 2^17, in the middle, in the
+// last three words and at one word of every magnitude in between; everything else is empty.
+func hugeSparse(nw int, key uint64) Case {
+	last := uint64(0x4000000000000100)
+	if key&1 == 1 {
+		last = 1<<63 | 1<<62 | 1
+	}
+	set := map[int]uint64{
+		0: 0x8000000000000001, 1: ^uint64(0), 4097: 0xf0f0,
+		1<<17 - 1: 1 << 63, 1 << 17: vk.Mix(key) | 1, 1<<17 + 1: 1,
+		nw / 2: ^uint64(0), nw/2 + 70: vk.Mix(key + 1),
+		nw - 3: 1 << 63, nw - 2: 0x5, nw - 1: last,
+	}
+	for j := uint(10); 1<<j < nw-4; j++ {
+		at := 1<<j + int(vk.Mix(key+uint64(j))%(1<<j))
+		if _, taken := set[at]; !taken && at < nw-3 {
+			set[at] = 1<<(vk.Mix(key^uint64(j))&63) | 1<<(vk.Mix(key+77*uint64(j))&63)
+		}
+	}
+	sp := &Spec{N: nw}
+	for at := range set {
+		sp.At = append(sp.At, at)
+	}
+	sort.Ints(sp.At)
+	for _, at := range sp.At {
+		sp.W = append(sp.W, set[at])
+	}
+	return Case{Sp: sp, Style: "huge-sparse"}
+}
+
+// hugeDense: nw > 2^18 words, all ones except a drawn or empty word about every 1000 words: more than 2^24 ones,
+// so select arguments, checkpoint positions and rank counts beyond 2^23 and 2^24 occur (odd ones included).
+func hugeDense(nw int, key uint64) Case {
+	sp := &Spec{N: nw, Fill: vk.U64(^uint64(0))}
+	for at, j := 17, uint64(0); at < nw; at, j = at+900+int(vk.Mix(key+j)%200), j+1 {
+		x := vk.Mix(key ^ j<<32)
+		if j%3 == 0 {
+			x = 0
+		}
+		sp.At, sp.W = append(sp.At, at), append(sp.W, x)
+	}
+	var q []int32
+	for _, b := range []int32{1 << 23, 1 << 24} {
+		for d := int32(-3); d <= 40; d++ {
+			q = append(q, b+d)
+		}
+	}
+	span := uint64(64*nw)*63/64 - 1<<23
+	for j := uint64(0); j < 1500; j++ {
+		q = append(q, int32(1<<23+vk.Mix(key+j*0x9e37)%span))
+	}
+	return Case{Sp: sp, Style: "huge-dense", Queries: q}
 }
 
 type Case struct {
 	Max     int          `json:"max,omitempty"` // v+1: the maximum bitmap of exactly 2^25 words = 2^31 bits, description v (gen.UseMax)
 	Words   vk.Words     `json:"words,omitempty"`
 	Big     *gen.BigSpec `json:"big,omitempty"`
+	Sp      *Spec        `json:"sp,omitempty"` // a fill word plus explicit exception words (long empty runs, very large bitmaps)
 	Style   string       `json:"style,omitempty"`
 	Queries []int32      `json:"queries,omitempty"` // extra i for bitmaps with more than allUpTo ones (taken mod n)
 }
@@ -130,17 +245,110 @@ func (c Case) words() []uint64 {
 	if c.Big != nil {
 		return c.Big.Expand()
 	}
+	if c.Sp != nil {
+		return c.Sp.Expand()
+	}
 	return c.Words
+}
+
+// Spec describes a bitmap of N words compactly: every word is Fill except the words At[k] = W[k]. Runs of
+// thousands of empty words between 1-bits and bitmaps of millions of words are a few numbers in the case file.
+type Spec struct {
+	N    int      `json:"n"`
+	Fill vk.U64   `json:"fill,omitempty"`
+	At   []int    `json:"at,omitempty"`
+	W    vk.Words `json:"w,omitempty"`
+}
+
+// specMaxWords: positions and the end position 64*N must fit an int32 for the ordinary check (the bitmap of
+// exactly 2^25 words is Case.Max).
+const specMaxWords = 1<<25 - 1
+
+// Expand is a pure function of the description (entries that do not fit are ignored, later entries win).
+func (s *Spec) Expand() []uint64 {
+	n := s.N
+	if n < 0 {
+		n = 0
+	}
+	if n > specMaxWords {
+		n = specMaxWords
+	}
+	w := make([]uint64, n)
+	if s.Fill != 0 {
+		for i := range w {
+			w[i] = uint64(s.Fill)
+		}
+	}
+	for k, at := range s.At {
+		if at >= 0 && at < n && k < len(s.W) {
+			w[at] = s.W[k]
+		}
+	}
+	return w
+}
+
+// onesOf is the oracle's list of 1-positions: the naive scan of every bit, or - for a Spec whose fill word is
+// empty - the same scan restricted to the listed words (all other words are 0 by construction).
+func onesOf(c Case, orig []uint64) []int32 {
+	if c.Sp == nil || c.Sp.Fill != 0 {
+		return model.Ones(orig)
+	}
+	idx := make([]int, 0, len(c.Sp.At))
+	for _, at := range c.Sp.At {
+		if at >= 0 && at < len(orig) {
+			idx = append(idx, at)
+		}
+	}
+	sort.Ints(idx)
+	var out []int32
+	for j, k := range idx {
+		if j > 0 && idx[j-1] == k {
+			continue
+		}
+		for b := 0; b < 64; b++ {
+			if orig[k]>>uint(b)&1 == 1 {
+				out = append(out, int32(64*k+b))
+			}
+		}
+	}
+	return out
 }
 
 const allUpTo = 4096
 
+// boundaryAllUpTo: up to this many ones every i = -1, 0, 1 mod 32 is queried.
+const boundaryAllUpTo = 5 << 20
+
+// reuseUpTo: larger bitmaps are not copied into the reused argument buffer (it is never released).
+const reuseUpTo = 1 << 17
+
+// othersInFull: see "index builders on other bitmaps" in check.
+const othersInFull = 4096
+
+// carve returns a private copy of src of exact size (len = cap) that starts 1..8 words into a larger buffer
+// whose other words are non-zero; an empty src is nil or empty-but-not-nil, as the checksum decides.
+func carve(src []uint64, checksum uint64) []uint64 {
+	if len(src) == 0 {
+		return vk.ShapeU64(src, checksum)
+	}
+	off := 1 + int(vk.Mix(checksum^0xca47e)%8)
+	buf := make([]uint64, off+len(src)+2)
+	for i := range buf {
+		buf[i] = 0xF0E1D2C3B4A59687 ^ uint64(i)
+	}
+	copy(buf[off:], src)
+	return buf[off : off+len(src) : off+len(src)]
+}
+
 var checker = &vk.Checker[Case]{
 	ID: "C02",
-	Rule: "bitmaps drawn by style (select-hostile: exact-count 32k-1/32k/32k+1 ones, islands with runs of empty words, tail = last 1 at the very last bit, palette words, all densities) and length class; " +
-		"grid: every byte value at each byte position x 4 fills as [w] and [w,0,w] (thorough: every 16-bit pattern x 4 positions x 3 fills); every valid i in [0,n) is queried when n <= 4096 " +
-		"(else 0, n-1, all i = -1,0,1 mod 32 and sampled i) through Select32, Select32R64 and Rank64(select(i)) against the naive list of 1-positions; both indexes compared entry by entry, after the index builders have been called on other bitmaps (a result aliasing library-owned memory is seen). " +
-		"Thorough only: both indexes and every select on the MAXIMUM bitmap (exactly 2^25 words = 2^31 bits, two sparse descriptions; the next-position of the last one, 2^31, fits no int32 and is not asserted). " +
+	Rule: "bitmaps drawn by style (select-hostile: exact-count 32k-1/32k/32k+1 ones, islands with runs of empty words, tail = last 1 at the very last bit, palette words, all densities, every 4th word empty or full) and length class " +
+		"(quick: mostly up to 40 words, regularly up to 100 and 260; 1/30 of the cases 41..12000 words of every density with log-uniform size; 1/10 sparse-runs: clusters of 1..3 words separated by runs of empty words of log-uniform length up to 6000 words, up to ~20000 words, with leading/trailing runs, or the complement shape); " +
+		"grid: every byte value at each byte position x 4 fills as [w] and [w,0,w] (thorough: every 16-bit pattern x 4 positions x 3 fills); 65536- and 70001-word bitmaps of six densities; a ladder of word counts 2^k-1, 2^k, 2^k+1 and three more per octave for k = 7..13 in three contents (few ones, groups of 32 ones, drawn), the 2^k+-1 sizes under every GOMAXPROCS setting of the process that varies it; first: every word count 0..320 in two contents and 32c ones for c around every power of two; " +
+		"last: three sparse bitmaps of 2^18..2^23 words (ones at every magnitude of position, around word 2^17 and in the last words) and an almost full one of more than 2^18 words (more than 2^24 ones: select arguments, checkpoints and rank counts beyond 2^23 and 2^24). " +
+		"Every valid i in [0,n) is queried when n <= 4096 (else 0, n-1, all i = -1,0,1 mod 32 - beyond 5*2^20 ones those of the first and last 2^15 and within 1024 of every power of two - and sampled i) through Select32, Select32R64 and Rank64(select(i)) against the naive list of 1-positions; both indexes compared entry by entry, after the index builders have been called on other bitmaps (a result aliasing library-owned memory is seen). " +
+		"The bitmap is handed over as an exact-size slice inside a larger non-zero buffer or in a reused buffer with guarded spare capacity; an empty bitmap as nil or as an empty slice. " +
+		"Thorough only: a sparse bitmap of 2^24..2^25 words, and both indexes and every select on the MAXIMUM bitmap (exactly 2^25 words = 2^31 bits, three sparse descriptions; the next-position of the last one, 2^31, fits no int32 and is not asserted). " +
 		"Non-trivial: n >= 2 (so a query with i%32 != 0 runs the in-word search and the next-1 scan). Distinct by hash of the case.",
 	Check:    check,
 	Classify: classify,
@@ -158,18 +366,25 @@ func classify(c Case) (bool, []string) {
 	gap := false
 	seen := false
 	zrun := 0
+	longest := 0 // longest run of empty words after a 1-bit (up to the next 1-bit or to the end of the bitmap)
 	for _, x := range w {
-		n += model.WordCount(x)
 		if x == 0 {
 			if seen {
 				zrun++
 			}
-		} else {
-			if seen && zrun > 0 {
-				gap = true
-			}
-			seen, zrun = true, 0
+			continue
 		}
+		n += model.WordCount(x)
+		if seen && zrun > 0 {
+			gap = true
+		}
+		if zrun > longest {
+			longest = zrun
+		}
+		seen, zrun = true, 0
+	}
+	if zrun > longest {
+		longest = zrun
 	}
 	labels := []string{"style:" + c.Style}
 	switch {
@@ -181,8 +396,43 @@ func classify(c Case) (bool, []string) {
 		labels = append(labels, "ones:2-31")
 	case n <= allUpTo:
 		labels = append(labels, "ones:32-4096")
-	default:
+	case n <= 1<<23:
 		labels = append(labels, "ones:>4096")
+	default:
+		labels = append(labels, "ones:>2^23(select arguments beyond 2^23)")
+	}
+	switch nw := len(w); {
+	case nw == 0:
+		labels = append(labels, "words:0")
+	case nw <= 8:
+		labels = append(labels, "words:1-8")
+	case nw <= 43:
+		labels = append(labels, "words:9-43")
+	case nw <= 64:
+		labels = append(labels, "words:44-64")
+	case nw <= 255:
+		labels = append(labels, "words:65-255")
+	case nw <= 4095:
+		labels = append(labels, "words:256-4095")
+	case nw <= 65535:
+		labels = append(labels, "words:4096-65535")
+	case nw <= 1<<18:
+		labels = append(labels, "words:65536-2^18")
+	default:
+		labels = append(labels, "words:>2^18")
+	}
+	switch {
+	case longest == 0:
+	case longest <= 7:
+		labels = append(labels, "longest-empty-run:1-7")
+	case longest <= 43:
+		labels = append(labels, "longest-empty-run:8-43")
+	case longest <= 511:
+		labels = append(labels, "longest-empty-run:44-511")
+	case longest <= 8191:
+		labels = append(labels, "longest-empty-run:512-8191")
+	default:
+		labels = append(labels, "longest-empty-run:>=8192")
 	}
 	if gap {
 		labels = append(labels, "empty-words-between-ones")
@@ -260,28 +510,16 @@ func check(c Case) (f *vk.Failure) {
 		return nil
 	}
 	orig := c.words()
-	words := vk.Words(orig).Clone() // what the code under test sees: a private copy ...
-	reused := scratch.Reuse(vk.SumU64(orig))
+	sum := vk.SumU64(orig) ^ vk.Hash64([]byte(c.Style))
+	// what the code under test sees: a private copy of exact size that lies in the middle of a larger buffer
+	// (foreign non-zero words before and behind it; an EMPTY bitmap is nil for half of the cases) ...
+	words := carve(orig, sum)
+	reused := len(orig) <= reuseUpTo && scratch.Reuse(vk.SumU64(orig))
 	if reused {
 		words = scratch.U64(orig) // ... or, every other case, a reused buffer with guarded spare capacity
 	}
-	defer func() {
-		if f == nil && reused {
-			if msg := scratch.Check(); msg != "" {
-				f = vk.Failf("argument-spare-capacity-written", "%s", msg)
-			}
-		}
-		if f == nil {
-			for i := range orig {
-				if words[i] != orig[i] {
-					f = vk.Failf("argument-modified", "bitmap word %d was modified by the select functions", i)
-					break
-				}
-			}
-		}
-	}()
 	nw := len(words)
-	pos := model.Ones(orig)
+	pos := onesOf(c, orig)
 	n := len(pos)
 	end := int32(64 * nw)
 
@@ -294,11 +532,21 @@ func check(c Case) (f *vk.Failure) {
 	}
 	// returned indexes must stay valid while indexes of other bitmaps are built (no shared result buffers)
 	if f := vk.Try("index builders on other bitmaps", func() {
-		inv := make([]uint64, len(orig))
-		for i, x := range orig {
-			inv[i] = ^x ^ uint64(i)*0x9e3779b97f4a7c15
+		// (up to 4096 words: the complement-like bitmap in full, extended, and its first half; beyond that
+		// its first half, at most 32768 words, and a short one: the builders walk every bit)
+		ninv := len(orig)
+		if ninv > othersInFull {
+			ninv = min(ninv/2, 32768)
 		}
-		for _, other := range [][]uint64{inv, append(append([]uint64{}, inv...), ^uint64(0), 0, 0x8000000000000001), inv[:len(inv)/2]} {
+		inv := make([]uint64, ninv, ninv+3)
+		for i := range inv {
+			inv[i] = ^orig[i] ^ uint64(i)*0x9e3779b97f4a7c15
+		}
+		others := [][]uint64{inv, append(append([]uint64{}, inv...), ^uint64(0), 0, 0x8000000000000001), inv[:len(inv)/2]}
+		if len(orig) > othersInFull {
+			others = [][]uint64{inv, append(append([]uint64{}, inv[:1021]...), ^uint64(0), 0, 0x8000000000000001)}
+		}
+		for _, other := range others {
 			_ = bitmap.IndexSelect32(other)
 			_, _ = bitmap.IndexSelect32R64(other)
 		}
@@ -372,7 +620,7 @@ func check(c Case) (f *vk.Failure) {
 			wantB = pos[i+1]
 		}
 		var a1, b1, a2, b2, r, bit int32
-		if f := vk.Try(fmt.Sprintf("Select32/Select32R64(i=%d of %d ones)", i, n), func() {
+		if f := vk.TryF(func() string { return fmt.Sprintf("Select32/Select32R64(i=%d of %d ones)", i, n) }, func() {
 			a1, b1 = bitmap.Select32(words, sidx, i)
 			a2, b2 = bitmap.Select32R64(words, sidx2, ridx, i)
 		}); f != nil {
@@ -401,12 +649,33 @@ func check(c Case) (f *vk.Failure) {
 		}
 		return nil
 	}
-	for i := 0; i < n; i++ {
-		m := i & 31
-		if i == 0 || i == n-1 || m == 0 || m == 1 || m == 31 {
-			if f := query(int32(i)); f != nil {
+	boundary := func(lo, hi int) *vk.Failure { // every i = -1, 0, 1 mod 32 in [lo,hi), and 0 and n-1
+		for i := max(lo, 0); i < min(hi, n); i++ {
+			m := i & 31
+			if i == 0 || i == n-1 || m == 0 || m == 1 || m == 31 {
+				if f := query(int32(i)); f != nil {
+					return f
+				}
+			}
+		}
+		return nil
+	}
+	if n <= boundaryAllUpTo {
+		if f := boundary(0, n); f != nil {
+			return f
+		}
+	} else {
+		// tens of millions of ones: the 32k boundaries at both ends and around every power of two
+		if f := boundary(0, 1<<15); f != nil {
+			return f
+		}
+		for k := uint(15); k < 31 && 1<<k-1024 < n; k++ {
+			if f := boundary(1<<k-1024, 1<<k+1024); f != nil {
 				return f
 			}
+		}
+		if f := boundary(n-1<<15, n); f != nil {
+			return f
 		}
 	}
 	for _, q := range c.Queries {
@@ -421,20 +690,99 @@ func check(c Case) (f *vk.Failure) {
 	return nil
 }
 
+// logUniform draws a size in [lo,hi] (1 <= lo <= hi) whose MAGNITUDE is uniform: every octave [lo*2^j, lo*2^(j+1))
+// is equally likely, so no range of sizes between the small and the largest inputs is left out.
+func logUniform(t *rapid.T, lo, hi int, label string) int {
+	oct := 1
+	for lo<<uint(oct) <= hi {
+		oct++
+	}
+	j := uint(gen.Uniform(t, oct, label+".oct"))
+	a, b := lo<<j, min(lo<<(j+1)-1, hi)
+	return a + gen.Uniform(t, b-a+1, label)
+}
+
+// queriesFrom expands one drawn key into n select arguments (taken mod the number of ones by check).
+func queriesFrom(key uint64, n int) []int32 {
+	q := make([]int32, n)
+	for i := range q {
+		q[i] = int32(vk.Mix(key+uint64(i)) >> 33)
+	}
+	return q
+}
+
+// genSparse: clusters of 1..3 non-empty words separated by runs of empty words whose lengths are log-uniform up to
+// thousands of words (quick: bitmaps up to ~20000 words), optionally a leading and a trailing empty run; sometimes
+// the complement shape (fill word all ones, the listed words anything).
+func genSparse(t *rapid.T) Case {
+	target := logUniform(t, 1, vk.Pick(20000, 200000), "sp.n")
+	gapMax := logUniform(t, 1, vk.Pick(6000, 60000), "sp.gapmax")
+	sp := &Spec{}
+	style := "sparse-runs"
+	if gen.Chance(t, 1, 8, "sp.full") {
+		sp.Fill = vk.U64(^uint64(0))
+		target = min(target, vk.Pick(3000, 20000))
+		style = "full-with-exceptions"
+	}
+	flavour := gen.Uniform(t, 3, "sp.flavour") // 0: one or two bits per word, 1: any word, 2: both
+	word := func() uint64 {
+		if flavour == 0 || flavour == 2 && gen.Chance(t, 1, 2, "sp.few") {
+			switch gen.Uniform(t, 4, "sp.wk") {
+			case 0:
+				return 1 << 63
+			case 1:
+				return 1
+			case 2:
+				return 1<<uint(gen.Uniform(t, 64, "sp.b1")) | 1<<uint(gen.Uniform(t, 64, "sp.b2"))
+			default:
+				return 1 << uint(gen.Uniform(t, 64, "sp.b"))
+			}
+		}
+		return gen.Word(t, "sp.w")
+	}
+	pos := 0
+	if gen.Chance(t, 1, 2, "sp.lead") {
+		pos = logUniform(t, 1, gapMax, "sp.leadgap")
+	}
+	end := 0
+	for len(sp.At) < 150 && pos < target {
+		for k := 1 + gen.Uniform(t, 3, "sp.cluster"); k > 0; k-- {
+			sp.At = append(sp.At, pos)
+			sp.W = append(sp.W, word())
+			pos++
+		}
+		end = pos
+		pos += logUniform(t, 1, gapMax, "sp.gap")
+	}
+	sp.N = end
+	if gen.Chance(t, 1, 2, "sp.trail") { // the scan for the next 1 after the last one runs to the end of the bitmap
+		sp.N = pos
+	}
+	return Case{Sp: sp, Style: style, Queries: queriesFrom(gen.U64(t, "qkey"), 128)}
+}
+
 func genCase(t *rapid.T) Case {
-	maxWords := vk.Pick(40, 1024)
-	if gen.Chance(t, 1, vk.Pick(150, 40), "bigclass") {
+	class := gen.Uniform(t, 120, "class")
+	if class < 4 { // 1/30: larger bitmaps of every density, sizes of every magnitude
 		var spec gen.BigSpec
 		if vk.Thorough() && gen.Chance(t, 1, 8, "huge") {
 			spec = gen.Big(t, 66000, 70001, "big")
 		} else {
-			spec = gen.Big(t, 65, vk.Pick(600, 8192), "big")
+			spec = gen.Big(t, 65, 65, "big")
+			spec.N = logUniform(t, 41, vk.Pick(12000, 8192), "big.size")
 		}
-		q := make([]int32, 512)
-		for i := range q {
-			q[i] = int32(gen.U64(t, "q") >> 33)
-		}
-		return Case{Big: &spec, Style: "big", Queries: q}
+		return Case{Big: &spec, Style: "big", Queries: queriesFrom(gen.U64(t, "qkey"), 384)}
+	}
+	if class < 16 { // 1/10
+		return genSparse(t)
+	}
+	// word counts: mostly up to 40 (every i is queried, cheap), but no count up to 260 is left out
+	maxWords := vk.Pick(40, 1024)
+	switch gen.Uniform(t, 8, "maxwords") {
+	case 5, 6:
+		maxWords = vk.Pick(100, 1024)
+	case 7:
+		maxWords = vk.Pick(260, 2048)
 	}
 	w, style := gen.Bitmap(t, maxWords, "bm")
 	// boost the select-hostile shapes: push some bitmaps to have trailing/leading empty words
@@ -448,8 +796,23 @@ func genCase(t *rapid.T) Case {
 			w[len(w)-1] |= 1 << 63
 			style += "+lastbit"
 		}
+	case 2: // element-wise mix: every 4th word (one residue) empty or full
+		if len(w) >= 4 {
+			x := uint64(0)
+			if gen.Chance(t, 1, 2, "mixfull") {
+				x = ^uint64(0)
+			}
+			for i := gen.Uniform(t, 4, "mixres"); i < len(w); i += 4 {
+				w[i] = x
+			}
+			style += "+every4th-empty-or-full"
+		}
 	}
-	return Case{Words: w, Style: style}
+	var q []int32
+	if len(w) > allUpTo/64 {
+		q = queriesFrom(gen.U64(t, "qkey"), 128)
+	}
+	return Case{Words: w, Style: style, Queries: q}
 }
 
 func TestRegress(t *testing.T) { checker.Regress(t) }
@@ -492,6 +855,26 @@ func TestGrid(t *testing.T) {
 			}
 		}
 	}
+	if shard == 0 {
+		// a ladder of sizes from 127 to 16383 words: 2^k-1, 2^k, 2^k+1 (each under every GOMAXPROCS setting of a
+		// process that varies it) and three more sizes inside every octave (they depend on VERIF_SEED)
+		for k := uint(7); k <= 13; k++ {
+			sizes := []int{1<<k - 1, 1 << k, 1<<k + 1}
+			for j := uint64(0); j < 3; j++ {
+				sizes = append(sizes, 1<<k+2+int(vk.Mix(vk.Seed()<<8+uint64(k)<<2+j)%(1<<k-2)))
+			}
+			for si, nw := range sizes {
+				for kind := 0; kind < 3; kind++ {
+					c := ladderCase(nw, vk.Mix(uint64(nw)<<3+uint64(kind)+vk.Seed()<<40), kind)
+					if si < 3 && (kind < 2 || k <= 10) {
+						vk.ProcsSweep(func() { checker.Run(t, c) })
+					} else {
+						checker.Run(t, c)
+					}
+				}
+			}
+		}
+	}
 	what := "every byte value x 8 byte positions x 4 fills as [w] and [w,0,w], every i"
 	if vk.Thorough() {
 		for _, fill := range fills[:3] {
@@ -510,9 +893,16 @@ func TestGrid(t *testing.T) {
 // the library cannot mask anything the ordinary cases would have met.
 func TestLast(t *testing.T) {
 	vk.SetPhase("last")
-	shard := 0
-	if shard == 0 && vk.Thorough() { // exactly 2^31 bits (the index builders walk every bit: seconds, thorough only)
-		for _, v := range []int{0, 2} {
+	// very large bitmaps in every run: positions, checkpoints, rank counts and select arguments of every magnitude
+	// up to 2^29 (quick) between the 70001-word bitmaps of the grid and the maximum bitmap
+	seed := vk.Seed()
+	checker.Run(t, hugeSparse(1<<18+1+int(vk.Mix(seed)%4096), vk.Mix(seed+1)))
+	checker.Run(t, hugeDense(1<<18+1<<14+int(vk.Mix(seed+2)%4096), vk.Mix(seed+3)))
+	checker.Run(t, hugeSparse(1<<20+int(vk.Mix(seed+4)%(1<<18)), vk.Mix(seed+5)))
+	checker.Run(t, hugeSparse(1<<21+int(vk.Mix(seed+6)%(3<<21)), vk.Mix(seed+7)))
+	if vk.Thorough() { // exactly 2^31 bits (the index builders walk every bit: seconds per builder, thorough only)
+		checker.Run(t, hugeSparse(1<<24+int(vk.Mix(seed+8)%(1<<24-1)), vk.Mix(seed+9)))
+		for _, v := range []int{0, 1, 2} {
 			checker.Run(t, Case{Max: v + 1, Style: "maximum"})
 		}
 	}
